@@ -429,7 +429,9 @@ static Reg r_table_bulk("table.bulk", [](const std::vector<std::string> &a) -> s
 // pool.pages <k>: allocations of 32, 64, ... 32*2^k bytes, each exactly the size of the page the pool opens next, so that the pool opens
 // pages 0..k (page j is 32 << j bytes: 2 GiB at j = 26, 4 GiB at j = 27) without any byte being touched; every allocation must succeed and
 // the pages must not overlap.   -> ok pages=<k+1> bytes=<sum>
+#define private public       // pool.run reads free_list_, current_, current_end_ (the standard headers pool.hh needs are already in)
 #include "util/pool.hh"
+#undef private
 static Reg r_pool_pages("pool.pages", [](const std::vector<std::string> &a) -> std::string {
   if (a.size() != 1) return "bad-op";
   unsigned k = strtoul(a[0].c_str(), NULL, 10);
@@ -450,6 +452,66 @@ static Reg r_pool_pages("pool.pages", [](const std::vector<std::string> &a) -> s
     return std::string("FAIL an allocation of ") + std::to_string(32ull << 0) + "*2^j bytes failed after " + std::to_string(total) + " bytes: " + e.what();
   }
   return "ok pages=" + std::to_string(k + 1) + " bytes=" + std::to_string(total);
+});
+
+// pool.run <op>...: op = a<size> (Allocate) | c<delta> (Continue on the most recent allocation, delta may be negative).  Every allocation is
+// filled with its own byte pattern; a moving Continue must have copied the old bytes; at the end every live allocation must still hold its
+// pattern (no two share a byte) -- ASan watches the writes and the memcpy.
+//   -> ok <page>:<off>[m] ... | pages=<amount>,... cur=<current_ - base of the last page> intact      (page 0 = the NULL region)
+static Reg r_pool_run("pool.run", [](const std::vector<std::string> &a) -> std::string {
+  util::Pool pool;
+  struct L { uint8_t *p; size_t n; uint8_t pat; };
+  std::vector<L> live;
+  std::vector<size_t> amounts;
+  std::string out = "ok";
+  auto where = [&](uint8_t *p) -> std::string {
+    if (!p) return "0:0";
+    for (size_t j = pool.free_list_.size(); j-- > 0;) {
+      uint8_t *b = static_cast<uint8_t*>(pool.free_list_[j]);
+      if (p >= b && p <= b + amounts[j]) return std::to_string(j + 1) + ":" + std::to_string(p - b);
+    }
+    return "?:?";
+  };
+  auto note_pages = [&]() {
+    while (amounts.size() < pool.free_list_.size()) amounts.push_back(pool.current_end_ - static_cast<uint8_t*>(pool.free_list_.back()));
+  };
+  uint8_t next_pat = 1;
+  try {
+    for (const std::string &o : a) {
+      if (o.size() < 2) return "bad-op";
+      if (o[0] == 'a') {
+        size_t n = strtoull(o.c_str() + 1, NULL, 10);
+        uint8_t *p = static_cast<uint8_t*>(pool.Allocate(n));
+        note_pages();
+        L l = {p, n, next_pat++};
+        if (n) memset(p, l.pat, n);
+        live.push_back(l);
+        out += " " + where(p);
+      } else if (o[0] == 'c') {
+        long long d = strtoll(o.c_str() + 1, NULL, 10);
+        if (live.empty() || (long long)live.back().n + d < 0) return "bad-op";
+        L &l = live.back();
+        void *base = l.p;
+        bool moved = pool.Continue(base, d);
+        note_pages();
+        size_t nn = l.n + d, keep = nn < l.n ? nn : l.n;
+        uint8_t *np = static_cast<uint8_t*>(base);
+        for (size_t i = 0; i < keep; ++i) if (np[i] != l.pat) return out + " FAIL Continue lost byte " + std::to_string(i) + " of the allocation";
+        if (moved != (np != l.p)) return out + " FAIL Continue returned " + std::to_string(moved) + " but base " + (np != l.p ? "changed" : "did not change");
+        l.p = np; l.n = nn;
+        if (nn) memset(np, l.pat, nn);
+        out += " " + where(np) + (moved ? "m" : "");
+      } else return "bad-op";
+    }
+  } catch (const std::exception &e) { return out + " ERR:exception " + e.what(); }
+  for (size_t k = 0; k < live.size(); ++k)
+    for (size_t i = 0; i < live[k].n; ++i)
+      if (live[k].p[i] != live[k].pat) return out + " FAIL allocation " + std::to_string(k) + " was overwritten at byte " + std::to_string(i);
+  out += " | pages=";
+  for (size_t j = 0; j < amounts.size(); ++j) out += (j ? "," : "") + std::to_string(amounts[j]);
+  if (amounts.empty()) out += "-";
+  out += " cur=" + std::to_string(pool.free_list_.empty() ? 0 : pool.current_ - static_cast<uint8_t*>(pool.free_list_.back())) + " intact";
+  return out;
 });
 
 // ---------------------------------------------------------------- util::MutableVocab (train_case / apply_case / truecase word ids)
